@@ -109,6 +109,18 @@ PromoteAllowed(pk) ==
     IF HasComplex(pk) THEN {Tm("complex", <<T(x)>>) : x \in ArithAllowed(Components(pk))}
                       ELSE {T(x) : x \in ArithAllowed(Components(pk))}
 
+(* cv-qualified arithmetic types are arithmetic types too: [n |-> "const" | "volatile" | "cv", a |-> <<T>>].  Values  *)
+(* of type const int added up are ints: the qualifiers do not reach the result - except that where ONE type remains *)
+(* after the leading bools the element as it was written is allowed as well (the "bool leaves T alone" reading).    *)
+CvNames  == {"const", "volatile", "cv"}
+Bare(t)  == IF t.n \in CvNames THEN t.a[1].n ELSE t.n
+RECURSIVE DropLeadingBools(_)
+DropLeadingBools(pk) == IF Len(pk) > 1 /\ Bare(pk[1]) = "bool" THEN DropLeadingBools(Tail(pk)) ELSE pk
+PromoteCvAllowed(pk) ==
+    LET r == DropLeadingBools(pk) IN
+    IF Len(r) = 1 THEN {r[1], T(Bare(r[1])), T(Add(Bare(r[1]), Bare(r[1])))}
+                  ELSE {T(FoldAdd([i \in DOMAIN r |-> Bare(r[i])]))}
+
 (* a set of terms as a sequence (for last.res); order is irrelevant *)
 RECURSIVE SetToSeq(_)
 SetToSeq(S) == IF S = {} THEN <<>> ELSE LET x == CHOOSE y \in S : TRUE IN <<x>> \o SetToSeq(S \ {x})
@@ -194,6 +206,9 @@ SeqsUpTo(S, n) == UNION {[1..m -> S] : m \in 0..n}
 ComplexTypes == {Tm("complex", <<T(f)>>) : f \in FloatSet}
 PackTypes    == {T(x) : x \in Arith} \cup ComplexTypes
 Packs        == UNION {[1..m -> PackTypes] : m \in 1..MaxPack}
+CvBases      == {"bool", "uchar", "short", "int", "ulong", "float"}
+CvTypes      == {Tm(q, <<T(x)>>) : q \in CvNames, x \in CvBases} \cup {T(x) : x \in {"bool", "char", "int", "double"}}
+CvPacks      == UNION {[1..m -> CvTypes] : m \in 1..2}
 LogicArgs    == SeqsUpTo(Bools \cup {"X"}, MaxArgs)
 (* "X" only where the std definition does not look at it: strictly after the selected argument *)
 NoXUpTo(s, k) == \A i \in 1..k : s[i] # "X"
@@ -212,6 +227,8 @@ One(x) == <<x>>
 DoAdd(a, b)          == Call("Add", [x |-> T(a), y |-> T(b)], One(T(Add(a, b))))
 DoAdd3(a, b, c)      == Call("Add3", [x |-> T(a), y |-> T(b), z |-> T(c)], One(T(FoldAdd(<<a, b, c>>))))
 DoPromote(pk)        == Call("Promote", [pack |-> pk], SetToSeq(PromoteAllowed(pk)))
+DoPromoteCv(pk)      == /\ \E i \in DOMAIN pk : pk[i].n \in CvNames
+                        /\ Call("PromoteCv", [pack |-> pk], SetToSeq(PromoteCvAllowed(pk)))
 DoBigPromote(t)      == Call("BigPromote", [t |-> t], One(BigPromote(t)))
 DoRealPromote(t)     == Call("RealPromote", [t |-> t], One(RealPromote(t)))
 DoBoolPromote(t)     == Call("BoolPromote", [t |-> t], One(BoolPromote(t)))
@@ -231,6 +248,7 @@ Next == /\ last.op = "Init"
         /\ \/ \E a, b \in Arith : DoAdd(a, b)
            \/ MaxPack >= 3 /\ \E a, b, c \in Arith : DoAdd3(a, b, c)
            \/ \E pk \in Packs : DoPromote(pk)
+           \/ \E pk \in CvPacks : DoPromoteCv(pk)
            \/ \E t \in PackTypes : DoBigPromote(t) \/ DoRealPromote(t) \/ DoBoolPromote(t)
            \/ \E s \in LogicArgs : DoConjunction(s) \/ DoDisjunction(s) \/ DoConcepts(s)
            \/ \E b \in Bools : DoNegation(b)
@@ -246,7 +264,7 @@ Emit == PrintT("@E@" \o ToJson(last'))
 ----------------------------------------------------------------------------
 (* Theorems of the specification itself (guard the oracle); checked by TLC   *)
 (* once, as an assumption of the model-checking module, for each platform.  *)
-TypeOK == last.op \in STRING /\ Len(last.res) \in 0..2
+TypeOK == last.op \in STRING /\ Len(last.res) \in 0..3
 
 ArithLaws ==
     /\ \A a, b \in Arith : /\ Add(a, b) = Add(b, a)
